@@ -7,6 +7,7 @@ import TerwayModel.Driver.Capacity
 import TerwayModel.Driver.Json
 import TerwayModel.Driver.NetConf
 import TerwayModel.Driver.Datapath
+import TerwayModel.Driver.Webhook
 /-
 `drv`: reads one operation per line (`<model>.<op> arg…`), prints one canonical line per input.
 Malformed or unknown lines print `bad-op` — never a default value.
@@ -32,6 +33,7 @@ def dispatch (st : St) (line : String) : St × String :=
       | some (t, o) => ({ st with fib := t }, o)
       | none => (st, "bad-op")
     | ["dp", op] => (st, (DatapathD.step op args).getD "bad-op")
+    | ["wh", op] => (st, (WebhookD.step op args).getD "bad-op")
     | ["nc", op] => (st, (NetConfD.step op args).getD "bad-op")
     | ["cfg", op] => (st, (JsonD.step op args).getD "bad-op")
     | ["cni", op] => (st, (JsonD.chainStep op args).getD "bad-op")
